@@ -206,6 +206,8 @@ def _shape_rules(prog: Program, rep, td, ds) -> None:
         # The loop may run over the rows or over their indices; locals set in the body are read through.
         st = State()
         st.heap.update(closure_heap)
+        if not f.positional:
+            raise AnalysisError(f'{name}: the scan takes no row index (the centre row is closed over): shape not read')
         rownum = f.positional[0]
         st.env.update(closure_env)
         st.env[rownum] = S('k')
